@@ -65,6 +65,7 @@ NAMES = ['a', 'b', 'c', 'd', '']      # (a label may be empty)
 GROUPS = ['G1', 'G2', 'G3']
 LOCS = ['L1', 'L2']
 MAX_AGE = 300
+AGE = [MAX_AGE]          # the configured age of the history in progress
 
 
 class VClock:
@@ -144,7 +145,7 @@ class RefDirectory:
         return True
 
     def expire(self, now):
-        for n in [n for n, v in self.known.items() if now - v[2] > MAX_AGE]:
+        for n in [n for n, v in self.known.items() if now - v[2] > AGE[0]]:
             del self.known[n]
 
     def sets(self, idx):
@@ -192,6 +193,10 @@ def random_snapshot(rng, names=NAMES, groups=GROUPS, locs=LOCS):
 
 def random_history(rng):
     steps = []
+    if rng.random() < 0.2:
+        # another configured age, zero included (everything not seen in the
+        # latest discovery is then gone at the next expiry)
+        steps.append(('age', rng.choice([0, 0.0, 1, 30, 5000])))
     for _ in range(rng.randint(1, 12)):
         r = rng.random()
         if r < 0.4:
@@ -210,6 +215,15 @@ def random_history(rng):
 
 def apply_history(ctx, steps, replay):
     VClock.now = 1000.0
+    if steps and steps[0][0] == 'age':
+        AGE[0] = steps[0][1]
+        env.configure([], overrides={'light_gc_time': AGE[0]})
+        ctx.count('histories_with_other_age')
+        try:
+            return apply_history(ctx, steps[1:], replay)
+        finally:
+            AGE[0] = MAX_AGE
+            env.configure([], overrides={'light_gc_time': MAX_AGE})
     ls = MonitoredLightSet()
     ref = RefDirectory()
     changed = False
@@ -270,7 +284,7 @@ def part_histories(ctx):
                  and len(steps) >= 3)
         if i % 1500 < ctx.nshards:
             ctx.sample({'part': 'history', 'steps': [
-                (op, a if op == 'advance' else
+                (op, a if op in ('advance', 'age') else
                  [(d['label'], d['group'], d['location']) for d in a])
                 for op, a in steps]})
     if ctx.tier == 'thorough':
